@@ -34,8 +34,16 @@ func Root(m map[string]int, ch chan int) error {
 	sort.Strings(keys)
 	MustThing()
 	Guarded()
+	Keeper{&cache{}}.Touch()
 	return nil
 }
+
+type cache struct{ n int }
+
+// Keeper stands for a long-lived object: a write through a reference it holds outlives the call.
+type Keeper struct{ c *cache }
+
+func (k Keeper) Touch() { k.c.n++ }
 
 func MustThing() {
 	if sink > 10 {
